@@ -66,7 +66,7 @@ Clauses(o, ev, o2, p) ==
                          THEN <<F("handler-leaked",
                                   IF ParkedPipeline(o) THEN "pipelined-request-parked"
                                   ELSE IF UnreadLeft(o) THEN "request-messages-unread" ELSE Cause(o))>>
-                         ELSE IF ParkedPipeline(o) THEN <<>>
+                         ELSE IF ParkedPipeline(o) \/ UnreadLeft(o) THEN <<>>   \* judged at the final point
                          ELSE <<F("handler-lingers", Cause(o))>>)
                    ELSE IF ev.live > 0 THEN <<F("task-leaked", o.cfg.carrier)>> ELSE <<>>)
              ELSE <<>>)
